@@ -2,7 +2,7 @@
 
 Cli.tla maps a scenario (level option absent / implemented / unimplemented / out of range / non-numeric; output path
 explicit or defaulted; input missing / empty / below one block / multi-block; output location writable or not; archive
-valid / truncated / not zstd / missing) to the specified effects (exit status class, never a panic, complete output on
+valid / truncated / not zstd / missing; output path free or holding an older shorter / longer file) to the specified effects (exit status class, never a panic, complete output on
 success, no new file at the output path after a failed compress).  TLC enumerates all scenarios; each is run against the
 freshly built ruzstd-cli binary in a scratch directory; stderr is scanned for a panic; successful compressions are
 decompressed again by the tool (must restore the input) and by libzstd (must accept the archive).
@@ -26,6 +26,15 @@ def content(kind, rnd):
         return bytes(rnd.choice(b"abcdefgh \n") for _ in range(rnd.randrange(1, 5000)))
     base = bytes(rnd.randrange(256) for _ in range(1777))
     return (base * 200)[: 131072 * 2 + rnd.randrange(0, 70000)]
+
+
+def put_prior(path, prior):
+    """An older, unrelated file at the output path (the tool must replace it, not overwrite its beginning)."""
+    if prior == "shorter":
+        open(path, "wb").write(b"old")
+    elif prior == "longer":
+        open(path, "wb").write(b"STALE-OLD-CONTENT " * 40000)
+    return prior != "none"
 
 
 def runcli(cli, args, cwd):
@@ -76,6 +85,7 @@ def check(ctx):
                     args.append(outp)
                 if c["level"] != "absent":
                     args += ["--level", c["level"]]
+                had_prior = c["outdir"] == "writable" and put_prior(outp, c["prior"])
                 rc, err = runcli(cli, args, d)
                 ok = rc == 0
                 key = "compress:%s:%s" % (c["level"], "ok" if ok else "fail")
@@ -84,7 +94,7 @@ def check(ctx):
                     why.append("the tool panicked (exit %d): %s" % (rc, err.strip().splitlines()[0][:200] if err.strip() else ""))
                 if ok != c["expect"]["ok"]:
                     why.append("exit status %d, specified %s" % (rc, "success" if c["expect"]["ok"] else "failure"))
-                if not ok and os.path.exists(outp):
+                if not ok and os.path.exists(outp) and not had_prior:
                     why.append("a failed compress left %d bytes at the output path" % os.path.getsize(outp))
                 if ok and c["expect"]["ok"]:
                     if not os.path.exists(outp):
@@ -119,6 +129,7 @@ def check(ctx):
                 if c["out"] == "explicit":
                     outp = os.path.join(d, "restored.out")
                     args.append(outp)
+                put_prior(outp, c["prior"])
                 rc, err = runcli(cli, args, d)
                 ok = rc == 0
                 key = "decompress:%s:%s" % (c["archive"], "ok" if ok else "fail")
@@ -129,7 +140,7 @@ def check(ctx):
                     why.append("exit status %d, specified %s" % (rc, "success" if c["expect"]["ok"] else "failure"))
                 if ok and c["expect"]["ok"]:
                     if not os.path.exists(outp) or open(outp, "rb").read() != data:
-                        why.append("the decompressed file differs from the original")
+                        why.append("the decompressed file differs from the original (%d bytes, original %d)" % (os.path.getsize(outp) if os.path.exists(outp) else -1, len(data)))
             if why:
                 nbad += 1
                 if nbad <= 10:
